@@ -8,19 +8,26 @@ Local Open Scope Z_scope.
 
 (* "an exception raised by the method (any type, any message text) ... fails exactly that call ... carries a prefix of
    its message ... never mistaken for a local schema problem":
-   for EVERY exception class name, message text, traceback text and ancestry (well-formed Unicode), with or without
-   unsafe tracebacks, getStateToCopy returns; every field it sends satisfies the byte limits that the caller's
-   FailureConstraint enforces (so the caller cannot raise a local Violation on it); and every field is the original
-   text, or -- when the original is longer than the limit -- a prefix of whole characters of it followed by "..".
-   The limits on both sides and the truncate function are read from the source. *)
-Theorem C10_failure_fits : forall unsafe e v, wf_exc unsafe e v ->
+   for EVERY exception -- any class name, any message text (including text that UTF-8 cannot encode, which is escaped
+   \udXXX), a __str__ that raises (reflect.safe_str's text is used), any traceback text, any ancestry -- with or without
+   unsafe tracebacks, getStateToCopy returns (it cannot raise inside the slicer); every field it sends satisfies the byte
+   limits that the caller's FailureConstraint enforces (so the caller cannot raise a local Violation on it); and every
+   field is the (escaped) original text, or -- when that is longer than the limit -- a prefix of whole characters of it
+   followed by "..".  The limits on both sides, the truncate function, the error handler of the text encoding and the
+   rendering of the exception value are read from the source.  No hypothesis: this is the full statement. *)
+Theorem C10_failure_fits : forall unsafe e,
   exists s, get_state unsafe e = Ok s /\ failure_constraint_ok s = true /\
-    field_of v trunc_limit_value (s_value s) /\
-    field_of (e_type e) trunc_limit_type (s_type s) /\
-    field_of (elide (if unsafe then e_stack e else default_traceback)) trunc_limit_traceback (s_traceback s) /\
-    Forall2 (fun p b => field_of p trunc_limit_parents b) (e_parents e) (s_parents s).
+    field_of (escape (rendered e)) trunc_limit_value (s_value s) /\
+    field_of (escape (e_type e)) trunc_limit_type (s_type s) /\
+    field_of (escape (elide (if unsafe then e_stack e else default_traceback))) trunc_limit_traceback (s_traceback s) /\
+    Forall2 (fun p b => field_of (escape p) trunc_limit_parents b) (e_parents e) (s_parents s).
 Proof. exact failure_fits. Qed.
 Print Assumptions C10_failure_fits.
+
+(* escaping never fails and changes nothing in text that UTF-8 can encode *)
+Theorem C10_escape : forall t, wf_text (escape t) /\ (wf_text t -> escape t = t).
+Proof. intros t. split; [apply escape_wf|apply escape_id]. Qed.
+Print Assumptions C10_escape.
 
 (* the translated truncate obeys its limit on EVERY byte string, and cuts well-formed text at a character boundary *)
 Theorem C10_truncate_fits : forall s lim, 3 < lim -> exists r, truncate s lim = Ok r /\ blen r <= lim.
@@ -45,24 +52,9 @@ Theorem C10_faithful_delivery : forall expose s,
 Proof. exact deliver_spec. Qed.
 Print Assumptions C10_faithful_delivery.
 
-(* FULL STATEMENT "any message text" IS REFUTED on the faithful model (and on the real code, see the harness):
-   text that UTF-8 cannot encode (a lone surrogate, e.g. from a surrogateescape'd file name), or an exception whose
-   __str__ raises, makes getStateToCopy raise inside the slicer -- a non-Violation exception in Banana.produce *)
-Theorem C10_failure_total_refuted :
-  exists unsafe e v, e_str e = Ok v /\ get_state unsafe e = Exc "UnicodeEncodeError"%string.
-Proof. exact failure_total_refuted. Qed.
-Print Assumptions C10_failure_total_refuted.
-
-Theorem C10_unencodable_text_raises : forall unsafe e v, e_str e = Ok v -> forallb scalarb v = false ->
-  get_state unsafe e = Exc "UnicodeEncodeError"%string.
-Proof. exact get_state_unencodable. Qed.
-Print Assumptions C10_unencodable_text_raises.
-
-Theorem C10_str_raising_raises : forall unsafe e t, e_str e = Exc t -> get_state unsafe e = Exc t.
-Proof. exact get_state_str_raises. Qed.
-Print Assumptions C10_str_raising_raises.
-
-(* ... and such an exception takes the connection down: nothing more is written, siblings are lost *)
+(* what a non-Violation exception inside a slicer does (the remaining known finding: an argument nested deeper than
+   the interpreter's recursion limit raises RecursionError in slicerForObject): the connection goes down, nothing more
+   is written, the siblings are lost *)
 Theorem C10_crash_drops_connection : forall c pre post, up (run (init c) pre) = true ->
   let s := run (init c) (pre ++ ECrash :: post) in
   up s = false /\ out s = out (run (init c) pre) /\ log s = log (run (init c) pre).
